@@ -1,7 +1,12 @@
 // C03 correspondence harness: Dune::ParallelIndexSet / GlobalLookupIndexSet vs. the Lean model, with a
 // std::multimap oracle that replays the history and decides the property itself.
 //
-// One case = one line   `<N> : op;op;op`      N = chunk size of the underlying ArrayList, N in {1,2,3,100}
+// One case = one line   `<CFG> : op;op;op`
+//   CFG = N          ParallelIndexSet<long, ParallelLocalIndex<Flag>, N>   N in {0,1,2,3,4,5,8,100}  (chunk size of the
+//                    underlying ArrayList; N = 0 is mapped to 1 by `(N>0) ? N : 1`)
+//   CFG = NL         ParallelIndexSet<int, LocalIndex, N>                  N in {1,15,25}  (the instantiation of the repo's
+//                    indexsettest: no attribute / public flag, generic LocalIndexComparator; A and P must be 0,
+//                    global indices must fit an int)
 //   b              beginResize()
 //   a G L A P      add(G, ParallelLocalIndex(L, A, P))             A in 0..3, P in 0/1
 //   ag G           add(G)                                          (default constructed local index)
@@ -12,19 +17,25 @@
 //   t G            at(G)            (const and non-const overload, must agree)
 //   o G            operator[](G)    (both overloads; only called when the oracle holds G, else `skip`)
 //   w G L          operator[](G).local() = L   (write through the returned reference; `skip` when G is absent)
+//   w2 G L         operator[](G).setLocal(L)   (IndexPair::setLocal(int); `skip` when G is absent)
 //   s | z | q      seqNo() | size() | state()
-//   p              dump by iteration
+//   p              dump by iteration (const and non-const begin()/end(), must agree)
 //   L              GlobalLookupIndexSet(set): size and pair(i) for all i < size (`?` where several pairs carry local number i)
 //   L M            GlobalLookupIndexSet(set, M) (only when every local number is < M, else `skip`)
 // Answer line: the observations after each op, joined by ';'.  A pair prints as g:l:a:p:v.
+//
+// The harness logic (parsing, oracle, checks) is written once against the type-erased `SetApi`; only the thin
+// `SetImpl<Set>` is instantiated per configuration, which keeps the sanitizer build affordable for many chunk sizes.
 #include <config.h>
 
 #include <algorithm>
+#include <climits>
 #include <dune/common/exceptions.hh>
 #include <dune/common/parallel/indexset.hh>
 #include <dune/common/parallel/localindex.hh>
 #include <dune/common/parallel/plocalindex.hh>
 #include <map>
+#include <memory>
 #include <set>
 
 #include "hcommon.hh"
@@ -49,16 +60,127 @@ static std::string entStr(const Ent& e) {
   os << e.g << ":" << e.l << ":" << e.a << ":" << (e.pub ? 1 : 0) << ":" << (e.valid ? 1 : 0);
   return os.str();
 }
-template <class P>
-Ent entOf(const P& p) {
-  return Ent{(long)p.global(), (unsigned long)p.local().local(), (int)p.local().attribute(), p.local().isPublic(),
-             p.local().state() == Dune::VALID};
-}
 static std::string entsStr(const std::vector<Ent>& v) {
   std::vector<std::string> s;
   for (auto& e : v) s.push_back(entStr(e));
   return listStr(s);
 }
+
+// ---- local index traits: what differs between ParallelLocalIndex<Flag> and LocalIndex ------------------
+template <class TL> struct LT;
+template <> struct LT<PLI> {
+  static constexpr bool hasAttr = true;
+  static PLI make(unsigned long l, int a, bool p) { return PLI((size_t)l, (Flag)a, p); }
+  static int attr(const PLI& x) { return (int)x.attribute(); }
+  static bool pub(const PLI& x) { return x.isPublic(); }
+};
+template <> struct LT<Dune::LocalIndex> {
+  static constexpr bool hasAttr = false;
+  static Dune::LocalIndex make(unsigned long l, int, bool) { return Dune::LocalIndex((std::size_t)l); }
+  static int attr(const Dune::LocalIndex&) { return 0; }
+  static bool pub(const Dune::LocalIndex&) { return false; }
+};
+
+struct Table {  // what one GlobalLookupIndexSet shows
+  std::size_t size = 0;
+  int seqNo = 0;
+  std::vector<bool> isSet;     // pair(i) != nullptr
+  std::vector<Ent> cell;       // *pair(i) where set
+  std::vector<Ent> forward;    // lookup[pair(i)->global()] where set (the table's own operator[])
+  std::vector<Ent> iter;       // begin()..end() of the table
+};
+
+// ---- type-erased view of one instantiation ------------------------------------------------------------------
+struct SetApi {
+  virtual ~SetApi() = default;
+  virtual bool hasAttr() const = 0;
+  virtual bool globalFits(long g) const = 0;
+  virtual int chunk() const = 0;
+  virtual void beginResize() = 0;
+  virtual void add(long g) = 0;
+  virtual void add(long g, unsigned long l, int a, bool p) = 0;
+  virtual bool seek(long g, int a) = 0;  // position the (non-const) cursor at the first entry with (g, a)
+  virtual void markCursor() = 0;         // markAsDeleted(cursor)
+  virtual void endResize() = 0;
+  virtual void renumberLocal() = 0;
+  virtual bool exists(long g) const = 0;
+  virtual Ent atC(long g, const void*& addr) const = 0;
+  virtual Ent atM(long g, const void*& addr) = 0;
+  virtual Ent getC(long g, const void*& addr) const = 0;
+  virtual Ent getM(long g, const void*& addr) = 0;
+  virtual void assignLocal(long g, unsigned long l) = 0;
+  virtual void setLocalInt(long g, int l) = 0;
+  virtual int seqNo() const = 0;
+  virtual std::size_t size() const = 0;
+  virtual bool inResize() = 0;
+  virtual std::vector<Ent> iterC() const = 0;
+  virtual std::vector<Ent> iterM() = 0;
+  virtual Table lookup(bool sized, std::size_t m) const = 0;
+};
+
+template <class TG, class TL, int N>
+struct SetImpl : SetApi {
+  typedef Dune::ParallelIndexSet<TG, TL, N> Set;
+  typedef Dune::GlobalLookupIndexSet<Set> Lookup;
+  Set set;
+  typename Set::iterator cursor;
+  SetImpl() : cursor(set.begin()) {}
+
+  template <class P>
+  static Ent entOf(const P& p) {
+    return Ent{(long)p.global(), (unsigned long)p.local().local(), LT<TL>::attr(p.local()), LT<TL>::pub(p.local()),
+               p.local().state() == Dune::VALID};
+  }
+  bool hasAttr() const override { return LT<TL>::hasAttr; }
+  bool globalFits(long g) const override { return (long)(TG)g == g; }
+  int chunk() const override { return N; }
+  void beginResize() override { set.beginResize(); }
+  void add(long g) override { set.add((TG)g); }
+  void add(long g, unsigned long l, int a, bool p) override { set.add((TG)g, LT<TL>::make(l, a, p)); }
+  bool seek(long g, int a) override {
+    cursor = set.begin();
+    for (; cursor != set.end(); ++cursor)
+      if ((long)cursor->global() == g && LT<TL>::attr(cursor->local()) == a) return true;
+    return false;
+  }
+  void markCursor() override { set.markAsDeleted(cursor); }
+  void endResize() override { set.endResize(); }
+  void renumberLocal() override { set.renumberLocal(); }
+  bool exists(long g) const override { return set.exists((TG)g); }
+  Ent atC(long g, const void*& addr) const override { const auto& p = set.at((TG)g); addr = &p; return entOf(p); }
+  Ent atM(long g, const void*& addr) override { auto& p = set.at((TG)g); addr = &p; return entOf(p); }
+  Ent getC(long g, const void*& addr) const override { const auto& p = set[(TG)g]; addr = &p; return entOf(p); }
+  Ent getM(long g, const void*& addr) override { auto& p = set[(TG)g]; addr = &p; return entOf(p); }
+  void assignLocal(long g, unsigned long l) override { set[(TG)g].local() = (std::size_t)l; }
+  void setLocalInt(long g, int l) override { set[(TG)g].setLocal(l); }
+  int seqNo() const override { return set.seqNo(); }
+  std::size_t size() const override { return set.size(); }
+  bool inResize() override { return set.state() == Dune::RESIZE; }
+  std::vector<Ent> iterC() const override {
+    std::vector<Ent> r;
+    for (auto it = set.begin(); it != set.end(); ++it) r.push_back(entOf(*it));
+    return r;
+  }
+  std::vector<Ent> iterM() override {
+    std::vector<Ent> r;
+    for (auto it = set.begin(); it != set.end(); ++it) r.push_back(entOf(*it));
+    return r;
+  }
+  Table lookup(bool sized, std::size_t m) const override {
+    std::unique_ptr<Lookup> gl(sized ? new Lookup(set, m) : new Lookup(set));
+    Table t;
+    t.size = gl->size();
+    t.seqNo = gl->seqNo();
+    for (std::size_t i = 0; i < gl->size(); ++i) {
+      const auto* p = gl->pair(i);
+      t.isSet.push_back(p != nullptr);
+      t.cell.push_back(p ? entOf(*p) : Ent{});
+      t.forward.push_back(p ? entOf((*gl)[p->global()]) : Ent{});
+    }
+    for (auto it = gl->begin(); it != gl->end(); ++it) t.iter.push_back(entOf(*it));
+    return t;
+  }
+};
 
 // ---- the independent oracle: a multimap keyed by (global, attribute) replaying the history ------------
 struct Oracle {
@@ -96,20 +218,16 @@ struct Oracle {
   }
 };
 
-template <int N>
 struct Runner {
-  typedef Dune::ParallelIndexSet<long, PLI, N> Set;
-  typedef Dune::GlobalLookupIndexSet<Set> Lookup;
-  Set set;
+  std::unique_ptr<SetApi> sp;
+  SetApi& set;
   Oracle o;
   int opIndex = 0;
+  int N;
 
-  std::vector<Ent> implAll() const {
-    const Set& cs = set;
-    std::vector<Ent> r;
-    for (auto it = cs.begin(); it != cs.end(); ++it) r.push_back(entOf(*it));
-    return r;
-  }
+  explicit Runner(SetApi* s) : sp(s), set(*s), N(std::max(1, s->chunk())) {}
+
+  std::vector<Ent> implAll() const { return const_cast<const SetApi&>(set).iterC(); }
 
   void fail(const std::string& what) {
     std::ostringstream os;
@@ -132,7 +250,7 @@ struct Runner {
     std::sort(ws.begin(), ws.end());
     if (!(gs == ws)) fail(std::string(when) + ": contents " + entsStr(got) + " expected " + entsStr(want));
     if (set.size() != want.size()) fail(std::string(when) + ": size() = " + std::to_string(set.size()) + " expected " + std::to_string(want.size()));
-    if ((set.state() == Dune::RESIZE) != o.resize) fail(std::string(when) + ": state() wrong");
+    if (set.inResize() != o.resize) fail(std::string(when) + ": state() wrong");
     if (set.seqNo() != o.seq) fail(std::string(when) + ": seqNo() = " + std::to_string(set.seqNo()) + " expected " + std::to_string(o.seq));
   }
 
@@ -145,12 +263,30 @@ struct Runner {
       if (!seen.insert(Oracle::Key(e.g, e.a)).second) o.outside = true;
   }
 
+  // where a present global index sits in the set, for the distribution
+  void statLookup(long g, const std::vector<Ent>& cand) {
+    if (cand.empty()) { stat("lookup_absent"); return; }
+    stat("lookup_present");
+    if (o.resize) stat("lookup_in_resize");
+    if (!cand[0].valid) stat("lookup_on_deleted_entry");
+    if (o.cur.begin()->first.first == g) stat("lookup_hit_first");
+    if (o.cur.rbegin()->first.first == g) stat("lookup_hit_last");
+  }
+
   std::string one(const std::string& opText) {
     auto w = words(opText);
     if (w.empty()) return "bad-op";
     const std::string& op = w[0];
-    auto L = [&](size_t i) { return std::stol(w.at(i)); };
-    const Set& cset = set;
+    bool numbersOk = true;
+    auto L = [&](size_t i) -> long {
+      try {
+        size_t used = 0;
+        long v = std::stol(w.at(i), &used);
+        if (used != w.at(i).size()) numbersOk = false;
+        return v;
+      } catch (...) { numbersOk = false; return 0; }
+    };
+    const SetApi& cset = set;
     stat("op_" + op);
     stat(std::string("size_") + (set.size() == 0 ? "0" : set.size() == 1 ? "1" : set.size() == 2 ? "2" : set.size() <= (size_t)N ? "le_chunk" : "gt_chunk"));
 
@@ -169,17 +305,19 @@ struct Runner {
     }
     if ((op == "a" && w.size() == 5) || (op == "ag" && w.size() == 2)) {
       long g = L(1);
+      if (!numbersOk || !set.globalFits(g)) return "bad-op";
       Ent e{g, 0, 0, false, true};
       bool threw = false;
+      if (op == "a") {
+        long l = L(2), a = L(3), p = L(4);
+        if (!numbersOk || l < 0 || a < 0 || a > 3 || p < 0 || p > 1) return "bad-op";
+        if (!set.hasAttr() && (a != 0 || p != 0)) return "bad-op";
+        e = Ent{g, (unsigned long)l, (int)a, p != 0, true};
+      }
+      if (g <= -(1L << 40) || g >= (1L << 40)) stat("global_extreme");
       try {
-        if (op == "a") {
-          long l = L(2), a = L(3), p = L(4);
-          if (l < 0 || a < 0 || a > 3 || p < 0 || p > 1) return "bad-op";
-          e = Ent{g, (unsigned long)l, (int)a, p != 0, true};
-          set.add(g, PLI((size_t)l, (Flag)a, p != 0));
-        } else {
-          set.add(g);
-        }
+        if (op == "a") set.add(g, e.l, e.a, e.pub);
+        else set.add(g);
       } catch (Dune::InvalidIndexSetState&) { threw = true; }
       if (!o.resize) {
         if (!threw) fail("add() in GROUND state not rejected");
@@ -192,20 +330,22 @@ struct Runner {
     }
     if (op == "d" && w.size() == 3) {
       long g = L(1), a = L(2);
-      auto it = set.begin();
-      for (; it != set.end(); ++it)
-        if (it->global() == g && (int)it->local().attribute() == a) break;
+      if (!numbersOk) return "bad-op";
+      bool found = set.seek(g, (int)a);
       auto range = o.cur.equal_range(Oracle::Key(g, (int)a));
       bool present = range.first != range.second;
-      if ((it != set.end()) != present) fail("entry to delete: presence differs from the oracle");
-      if (it == set.end()) return "none";
+      if (found != present) fail("entry to delete: presence differs from the oracle");
+      if (!found) return "none";
       bool threw = false;
-      try { set.markAsDeleted(it); } catch (Dune::InvalidIndexSetState&) { threw = true; }
+      try { set.markCursor(); } catch (Dune::InvalidIndexSetState&) { threw = true; }
       if (!o.resize) {
         if (!threw) fail("markAsDeleted() in GROUND state not rejected");
       } else {
         if (threw) fail("markAsDeleted() in RESIZE state rejected");
-        if (present) range.first->second.valid = false;
+        if (present) {
+          if (!range.first->second.valid) stat("delete_marked_twice");
+          range.first->second.valid = false;
+        }
       }
       if (threw) stat("err_InvalidState");
       return threw ? "ERR:InvalidState" : "ok";
@@ -217,10 +357,27 @@ struct Runner {
         if (!threw) fail("endResize() in GROUND state not rejected");
       } else {
         if (threw) fail("endResize() in RESIZE state rejected");
+        // which branch of merge() this phase takes, and what kind of phase it is (distribution only)
+        size_t nDel = 0;
+        for (auto& kv : o.cur) if (!kv.second.valid) ++nDel;
+        if (o.cur.empty()) stat("merge_branch_old_empty");
+        else if (o.added.empty() && nDel == 0) stat("merge_branch_nothing_to_do");
+        else stat("merge_branch_three_way");
+        if (!o.cur.empty() && nDel == o.cur.size()) stat("phase_deletes_everything");
+        if (nDel > 0 && o.added.empty()) stat("phase_only_deletes");
+        for (auto& e : o.added) {
+          bool readd = false, below = !o.cur.empty() && e.g < o.cur.begin()->first.first,
+               above = !o.cur.empty() && e.g > o.cur.rbegin()->first.first;
+          for (auto& kv : o.cur) if (kv.first.first == e.g && !kv.second.valid) readd = true;
+          if (readd) stat("phase_readds_deleted_global");
+          if (below) stat("added_below_all_old");
+          if (above) stat("added_above_all_old");
+        }
         for (auto it = o.cur.begin(); it != o.cur.end();)
           if (!it->second.valid) it = o.cur.erase(it); else ++it;
         for (auto& e : o.added) o.cur.insert({Oracle::Key(e.g, e.a), e});
         stat("resize_added", (long)o.added.size());
+        stat("resize_deleted", (long)nDel);
         o.added.clear();
         o.resize = false;
         o.seq++;
@@ -245,22 +402,25 @@ struct Runner {
     }
     if (op == "x" && w.size() == 2) {
       long g = L(1);
+      if (!numbersOk || !set.globalFits(g)) return "bad-op";
       bool got = cset.exists(g);
-      bool want = !o.withGlobal(g).empty();
-      stat(want ? "lookup_present" : "lookup_absent");
+      auto cand = o.withGlobal(g);
+      bool want = !cand.empty();
+      statLookup(g, cand);
       if (got != want) fail("exists(" + w[1] + ") = " + (got ? "true" : "false") + " on a set of size " + std::to_string(set.size()));
       return got ? "true" : "false";
     }
     if (op == "t" && w.size() == 2) {
       long g = L(1);
+      if (!numbersOk || !set.globalFits(g)) return "bad-op";
       std::string r1, r2;
       const void* p1 = nullptr;
       const void* p2 = nullptr;
-      try { const auto& p = cset.at(g); r1 = entStr(entOf(p)); p1 = &p; } catch (Dune::RangeError&) { r1 = "ERR:Range"; }
-      try { auto& p = set.at(g); r2 = entStr(entOf(p)); p2 = &p; } catch (Dune::RangeError&) { r2 = "ERR:Range"; }
+      try { r1 = entStr(cset.atC(g, p1)); } catch (Dune::RangeError&) { r1 = "ERR:Range"; }
+      try { r2 = entStr(set.atM(g, p2)); } catch (Dune::RangeError&) { r2 = "ERR:Range"; }
       if (r1 != r2 || p1 != p2) fail("at(" + w[1] + "): const and non-const overloads disagree: " + r1 + " / " + r2);
       auto cand = o.withGlobal(g);
-      stat(cand.empty() ? "lookup_absent" : "lookup_present");
+      statLookup(g, cand);
       if (cand.empty()) {
         if (r1 != "ERR:Range") fail("at(" + w[1] + ") returned " + r1 + " for an absent global index");
         else stat("err_Range");
@@ -275,73 +435,81 @@ struct Runner {
     }
     if (op == "o" && w.size() == 2) {
       long g = L(1);
+      if (!numbersOk || !set.globalFits(g)) return "bad-op";
       auto cand = o.withGlobal(g);
       if (cand.empty()) return "skip";
-      stat("lookup_present");
-      const auto& p = cset[g];
-      auto& q = set[g];
-      std::string r1 = entStr(entOf(p)), r2 = entStr(entOf(q));
-      if (r1 != r2 || (const void*)&p != (const void*)&q) fail("operator[](" + w[1] + "): const and non-const overloads disagree");
+      statLookup(g, cand);
+      const void* p1 = nullptr;
+      const void* p2 = nullptr;
+      std::string r1 = entStr(cset.getC(g, p1)), r2 = entStr(set.getM(g, p2));
+      if (r1 != r2 || p1 != p2) fail("operator[](" + w[1] + "): const and non-const overloads disagree");
       bool any = false;
       for (auto& c : cand) any = any || r1 == entStr(c);
       if (!any) fail("operator[](" + w[1] + ") = " + r1 + " expected " + entStr(cand[0]) + " on a set of size " + std::to_string(set.size()));
       return r1;
     }
-    if (op == "w" && w.size() == 3) {
+    if ((op == "w" || op == "w2") && w.size() == 3) {
       long g = L(1), l = L(2);
-      if (l < 0) return "bad-op";
+      if (!numbersOk || l < 0 || !set.globalFits(g)) return "bad-op";
+      if (op == "w2" && l > INT_MAX) return "bad-op";
       auto it = o.cur.lower_bound(Oracle::Key(g, -1000));
       if (it == o.cur.end() || it->first.first != g) return "skip";
-      set[g].local() = (size_t)l;  // ParallelLocalIndex::operator=(size_t)
+      if (op == "w") set.assignLocal(g, (unsigned long)l);  // ParallelLocalIndex::operator=(size_t)
+      else set.setLocalInt(g, (int)l);                      // IndexPair::setLocal(int)
       it->second.l = (unsigned long)l;
       return "ok";
     }
     if (op == "s" && w.size() == 1) return std::to_string(set.seqNo());
     if (op == "z" && w.size() == 1) return std::to_string(set.size());
-    if (op == "q" && w.size() == 1) return set.state() == Dune::GROUND ? "G" : "R";
-    if (op == "p" && w.size() == 1) return entsStr(implAll());
+    if (op == "q" && w.size() == 1) return set.inResize() ? "R" : "G";
+    if (op == "p" && w.size() == 1) {
+      auto a = implAll(), b = set.iterM();
+      if (!(a == b)) fail("const and non-const iteration disagree");
+      return entsStr(a);
+    }
     if (op == "L" && (w.size() == 1 || w.size() == 2)) {
       auto want = o.all();
       unsigned long maxl = 0;
       for (auto& e : want) maxl = std::max(maxl, e.l);
       if (maxl > 100000) return "skip";
-      std::unique_ptr<Lookup> gl;
+      Table gl;
       if (w.size() == 2) {
         long m = L(1);
-        if (m < 0 || m > 100000) return "bad-op";
+        if (!numbersOk || m < 0 || m > 100000) return "bad-op";
         if (!want.empty() && (unsigned long)m <= maxl) return "skip";
-        gl.reset(new Lookup(cset, (std::size_t)m));
+        gl = cset.lookup(true, (std::size_t)m);
+        if (gl.size != (std::size_t)m) fail("GlobalLookupIndexSet(set, " + w[1] + ")::size() = " + std::to_string(gl.size));
+        stat("lookup_tables_sized");
       } else {
-        gl.reset(new Lookup(cset));
-        if (gl->size() != maxl + 1) fail("GlobalLookupIndexSet::size() = " + std::to_string(gl->size()) + " expected " + std::to_string(maxl + 1));
+        gl = cset.lookup(false, 0);
+        if (gl.size != maxl + 1) fail("GlobalLookupIndexSet::size() = " + std::to_string(gl.size) + " expected " + std::to_string(maxl + 1));
       }
       stat("lookup_tables");
-      if (gl->seqNo() != set.seqNo()) fail("GlobalLookupIndexSet::seqNo() differs");
+      if (o.resize) stat("lookup_tables_in_resize");
+      if (gl.seqNo != set.seqNo()) fail("GlobalLookupIndexSet::seqNo() differs");
       std::map<unsigned long, std::vector<Ent>> byLocal;
       for (auto& e : want) byLocal[e.l].push_back(e);
       std::map<unsigned long, int> carriers;  // from the set itself: how many stored pairs carry this local number
       for (auto& e : implAll()) carriers[e.l]++;
       std::vector<std::string> cells;
-      for (std::size_t i = 0; i < gl->size(); ++i) {
-        const auto* p = gl->pair(i);
+      for (std::size_t i = 0; i < gl.size; ++i) {
+        bool p = gl.isSet[i];
         // which of several pairs with the same local number the table keeps is not part of the property: printed as `?`
-        cells.push_back(carriers[i] > 1 ? (p ? "?" : "-") : p ? entStr(entOf(*p)) : "-");
+        cells.push_back(carriers[i] > 1 ? (p ? "?" : "-") : p ? entStr(gl.cell[i]) : "-");
         auto f = byLocal.find(i);
         if (f == byLocal.end()) {
           if (p) fail("reverse lookup: pair(" + std::to_string(i) + ") set although no pair has this local number");
         } else {
           bool any = false;
-          for (auto& c : f->second) any = any || (p && entStr(entOf(*p)) == entStr(c));
-          if (!any) fail("reverse lookup: pair(" + std::to_string(i) + ") = " + (p ? entStr(entOf(*p)) : std::string("null")) + " expected " + entStr(f->second[0]));
+          for (auto& c : f->second) any = any || (p && entStr(gl.cell[i]) == entStr(c));
+          if (!any) fail("reverse lookup: pair(" + std::to_string(i) + ") = " + (p ? entStr(gl.cell[i]) : std::string("null")) + " expected " + entStr(f->second[0]));
           // forward lookup through the table's operator[] gives the same pair again
-          if (p && f->second.size() == 1 && !o.dupGlobals() && entStr(entOf((*gl)[p->global()])) != entStr(entOf(*p)))
+          if (p && f->second.size() == 1 && !o.dupGlobals() && entStr(gl.forward[i]) != entStr(gl.cell[i]))
             fail("reverse lookup: operator[] of the lookup set disagrees with pair()");
         }
       }
-      std::vector<Ent> viaIter;
-      for (auto it = gl->begin(); it != gl->end(); ++it) viaIter.push_back(entOf(*it));
-      if (!(viaIter == implAll())) fail("GlobalLookupIndexSet iteration differs from the index set");
-      return std::to_string(gl->size()) + ":" + listStr(cells);
+      if (!(gl.iter == implAll())) fail("GlobalLookupIndexSet iteration differs from the index set");
+      return std::to_string(gl.size) + ":" + listStr(cells);
     }
     return "bad-op";
   }
@@ -354,7 +522,7 @@ struct Runner {
       // state before, to judge "a rejected call leaves the set unchanged"
       std::vector<Ent> before = implAll();
       int seqBefore = set.seqNo();
-      bool resizeBefore = set.state() == Dune::RESIZE;
+      bool resizeBefore = set.inResize();
       // the property quantifies over sets with pairwise distinct (global, attribute): decided when a phase is closed
       if (o.resize && words(opText) == std::vector<std::string>{"e"}) checkQuantifier();
       if (o.outside) break;
@@ -362,7 +530,7 @@ struct Runner {
       obs.push_back(ob);
       if (ob == "bad-op") { res.impl = "bad-op"; res.oracle = "FAIL harness cannot parse op '" + opText + "'"; return res; }
       if (ob == "ERR:InvalidState") {
-        if (!(before == implAll()) || seqBefore != set.seqNo() || resizeBefore != (set.state() == Dune::RESIZE))
+        if (!(before == implAll()) || seqBefore != set.seqNo() || resizeBefore != set.inResize())
           fail("rejected call changed the index set");
       }
       checkAll(("after '" + opText + "'").c_str());
@@ -376,6 +544,22 @@ struct Runner {
   }
 };
 
+// every instantiated configuration; the Lean driver accepts exactly the same header tokens
+static SetApi* makeSet(const std::string& cfg) {
+  if (cfg == "0") return new SetImpl<long, PLI, 0>();
+  if (cfg == "1") return new SetImpl<long, PLI, 1>();
+  if (cfg == "2") return new SetImpl<long, PLI, 2>();
+  if (cfg == "3") return new SetImpl<long, PLI, 3>();
+  if (cfg == "4") return new SetImpl<long, PLI, 4>();
+  if (cfg == "5") return new SetImpl<long, PLI, 5>();
+  if (cfg == "8") return new SetImpl<long, PLI, 8>();
+  if (cfg == "100") return new SetImpl<long, PLI, 100>();
+  if (cfg == "1L") return new SetImpl<int, Dune::LocalIndex, 1>();
+  if (cfg == "15L") return new SetImpl<int, Dune::LocalIndex, 15>();
+  if (cfg == "25L") return new SetImpl<int, Dune::LocalIndex, 25>();
+  return nullptr;
+}
+
 Result exec(const std::string& line) {
   auto pos = line.find(" :");
   if (pos == std::string::npos) return Result{"bad-op", "FAIL malformed line"};
@@ -386,17 +570,12 @@ Result exec(const std::string& line) {
   for (auto& s : split(rest, ';')) {
     if (!words(s).empty()) ops.push_back(s);
   }
+  SetApi* s = makeSet(hdr[0]);
+  if (!s) return Result{"bad-op", "FAIL configuration not instantiated"};
   stat("histories");
   stat("chunk_" + hdr[0]);
   stat("ops_total", (long)ops.size());
-  int n = std::stoi(hdr[0]);
-  switch (n) {
-    case 1: return Runner<1>().run(ops);
-    case 2: return Runner<2>().run(ops);
-    case 3: return Runner<3>().run(ops);
-    case 100: return Runner<100>().run(ops);
-  }
-  return Result{"bad-op", "FAIL chunk size not instantiated"};
+  return Runner(s).run(ops);
 }
 
 // ---- generators ------------------------------------------------------------------------------------------
@@ -406,40 +585,62 @@ struct Shadow {  // what the generator believes the set holds (only used to stee
   bool resize = false;
 };
 
+// global index values at the ends of the value range of `long` / `int` and around powers of two
+static const long WIDE_LONG[] = {LONG_MIN, LONG_MIN + 1, -(1L << 62), -(1L << 32) - 1, -(1L << 31), -2, -1, 0, 1, 2,
+                                 (1L << 31) - 1, 1L << 31, 1L << 32, (1L << 62), LONG_MAX - 1, LONG_MAX};
+static const long WIDE_INT[] = {INT_MIN, INT_MIN + 1, -(1L << 30), -65536, -2, -1, 0, 1, 2, 65535, 1L << 30, INT_MAX - 1, INT_MAX};
+
 static std::string randomHistory(Rng& r, bool big) {
-  static const int NS[] = {1, 2, 3, 100, 1, 2, 3, 2};
-  int N = big ? (r.coin() ? 100 : 3) : NS[r.below(8)];
+  static const char* NS[] = {"1", "2", "3", "100", "1", "2", "3", "2", "0", "4", "5", "8", "1L", "15L", "25L", "1L"};
+  static const char* BIG[] = {"100", "3", "100", "8", "15L", "25L"};
+  std::string cfg = big ? BIG[r.below(6)] : NS[r.below(16)];
+  bool plain = cfg.back() == 'L';  // LocalIndex: no attribute, no public flag, int globals
+  int N = std::max(1, std::atoi(cfg.c_str()));
   std::ostringstream os;
-  os << N << " :";
-  bool dupMode = !big && r.coin(3, 20);
+  os << cfg << " :";
+  bool dupMode = !big && !plain && r.coin(3, 20);
+  bool wide = !big && r.coin(1, 8);  // global indices from the ends of the value range
   long lo = big ? 0 : r.range(-4, 3);
   long width = big ? r.range(120, 260) : r.range(1, 12);
+  if (wide) { lo = 0; width = (plain ? sizeof(WIDE_INT) / sizeof(long) : sizeof(WIDE_LONG) / sizeof(long)) - 1; }
   long hi = lo + width;
+  // index -> global index value
+  auto val = [&](long i) -> long {
+    if (!wide) return i;
+    long n = width + 1;
+    long k = ((i % n) + n) % n;
+    return plain ? WIDE_INT[k] : WIDE_LONG[k];
+  };
   int rounds = big ? (int)r.range(1, 3) : (int)r.range(1, 5);
   bool wrongState = r.coin(1, 3);
   Shadow sh;
   bool first = true;
   auto emit = [&](const std::string& s) { os << (first ? " " : ";") << s; first = false; };
-  auto G = [&]() { return r.range(lo - 1, hi + 1); };
+  auto G = [&]() { return val(r.range(lo - 1, hi + 1)); };
   auto lookups = [&](int n) {
     for (int i = 0; i < n; ++i) {
       long g = G();
       if (!sh.live.empty() && r.coin()) {  // aim at a stored key, or just beside one
         auto it = sh.live.begin();
         std::advance(it, r.below(sh.live.size()));
-        g = it->first.first + (r.coin(1, 4) ? r.range(-1, 1) : 0);
+        g = it->first.first;
+        if (r.coin(1, 4)) {
+          long d = r.range(-1, 1);
+          if ((d < 0 && g > (plain ? INT_MIN : LONG_MIN)) || (d > 0 && g < (plain ? INT_MAX : LONG_MAX))) g += d;
+        }
       }
-      switch (r.below(8)) {
-        case 0: case 1: case 2: emit("x " + std::to_string(g)); break;
-        case 3: case 4: emit("t " + std::to_string(g)); break;
-        case 5: emit("o " + std::to_string(g)); break;
-        case 6: emit("w " + std::to_string(g) + " " + std::to_string(r.below(9))); break;
+      switch (r.below(16)) {
+        case 0: case 1: case 2: case 3: case 4: case 5: emit("x " + std::to_string(g)); break;
+        case 6: case 7: case 8: case 9: emit("t " + std::to_string(g)); break;
+        case 10: case 11: emit("o " + std::to_string(g)); break;
+        case 12: emit("w " + std::to_string(g) + " " + std::to_string(r.coin(1, 16) ? (1L << 40) + r.below(5) : r.below(9))); break;
+        case 13: emit("w2 " + std::to_string(g) + " " + std::to_string(r.coin(1, 16) ? INT_MAX - (long)r.below(2) : r.below(9))); break;
         default: emit(r.coin() ? "z" : r.coin() ? "s" : "q"); break;
       }
     }
   };
   for (int round = 0; round < rounds; ++round) {
-    if (wrongState && r.coin(1, 4)) emit(r.coin() ? "e" : r.coin() ? "a " + std::to_string(G()) + " 1 0 1" : "ag " + std::to_string(G()));
+    if (wrongState && r.coin(1, 4)) emit(r.coin() ? "e" : r.coin() ? "a " + std::to_string(G()) + (plain ? " 1 0 0" : " 1 0 1") : "ag " + std::to_string(G()));
     if (wrongState && r.coin(1, 4) && !sh.live.empty()) {
       auto it = sh.live.begin();
       std::advance(it, r.below(sh.live.size()));
@@ -453,7 +654,7 @@ static std::string randomHistory(Rng& r, bool big) {
     switch (r.below(6)) {
       case 0: nAdd = 0; break;
       case 1: nAdd = 1; break;
-      case 2: nAdd = N <= 3 ? N + r.range(-1, 1) : 2; break;
+      case 2: nAdd = N <= 8 ? N + r.range(-1, 1) : 2; break;
       default: nAdd = r.range(0, std::min<long>(width + 1, big ? 260 : 9)); break;
     }
     if (big) nAdd = r.range(90, 230);
@@ -468,11 +669,12 @@ static std::string randomHistory(Rng& r, bool big) {
       auto w = words(a);
       sh.live[{std::stol(w[1]), std::stoi(w[2])}] = true;
     }
+    if (!acts.empty() && r.coin(1, 10)) acts.push_back(acts[r.below(acts.size())]);  // the same entry marked twice
     for (long k = 0; k < nAdd; ++k) {
       // look for a global that is not live (or is deleted in this phase); in dupMode an equal global with another attribute
       for (int tries = 0; tries < 12; ++tries) {
-        long g = r.range(lo, hi);
-        int a = (int)r.below(4);
+        long g = val(r.range(lo, hi));
+        int a = plain ? 0 : (int)r.below(4);
         bool globalTaken = false, keyTaken = false;
         for (auto& kv : sh.live)
           if (kv.first.first == g && !kv.second) { globalTaken = true; if (kv.first.second == a) keyTaken = true; }
@@ -482,7 +684,7 @@ static std::string randomHistory(Rng& r, bool big) {
         if (globalTaken) stat("gen_equal_global_added");
         sh.fresh.insert({g, a});
         if (a == 0 && r.coin(1, 8)) { acts.push_back("ag " + std::to_string(g)); }
-        else acts.push_back("a " + std::to_string(g) + " " + std::to_string(r.coin(1, 12) ? r.range(20, 45) : r.below(10)) + " " + std::to_string(a) + " " + std::to_string(r.below(2)));
+        else acts.push_back("a " + std::to_string(g) + " " + std::to_string(r.coin(1, 12) ? r.range(20, 45) : r.below(10)) + " " + std::to_string(a) + " " + std::to_string(plain ? 0 : r.below(2)));
         break;
       }
     }
@@ -492,7 +694,8 @@ static std::string randomHistory(Rng& r, bool big) {
       emit(a);
       if (wrongState && r.coin(1, 10)) emit(r.coin() ? "b" : "r");
       if (r.coin(1, 12)) lookups(1);
-      if (r.coin(1, 30)) emit("d " + std::to_string(G()) + " " + std::to_string(r.below(4)));  // mostly `none`
+      if (r.coin(1, 30)) emit("d " + std::to_string(G()) + " " + std::to_string(plain ? 0 : r.below(4)));  // mostly `none`
+      if (r.coin(1, 40)) emit("L");  // reverse table while entries are marked DELETED
     }
     if (r.coin(1, 10)) emit("p");
     emit("e");
@@ -504,6 +707,13 @@ static std::string randomHistory(Rng& r, bool big) {
     // ground-state observations
     if (r.coin(1, 3)) emit("r");
     lookups(big ? 6 : (int)r.range(1, 6));
+    if (!sh.live.empty() && r.coin(1, 3)) {  // the first and the last stored global index and their outer neighbours
+      long gf = sh.live.begin()->first.first, gl = sh.live.rbegin()->first.first;
+      emit((r.coin() ? "x " : "t ") + std::to_string(gf));
+      emit((r.coin() ? "x " : "t ") + std::to_string(gl));
+      if (gf > (plain ? INT_MIN : LONG_MIN)) emit((r.coin() ? "x " : "t ") + std::to_string(gf - 1));
+      if (gl < (plain ? INT_MAX : LONG_MAX)) emit((r.coin() ? "x " : "t ") + std::to_string(gl + 1));
+    }
     if (r.coin(1, 3)) emit("L");
     if (r.coin(1, 6)) emit("L " + std::to_string(r.coin() ? r.range(0, 12) : r.range(10, 60)));
     if (r.coin(1, 4)) emit("r");
@@ -516,11 +726,11 @@ static std::string randomHistory(Rng& r, bool big) {
 }
 
 // exhaustive family: globals {0,1,2,3}; round 1 adds a subset (two orders), round 2 deletes / re-adds / adds
-// per global; every lookup on every global after each round.   4 * 16 * 2 * 81 = 10368 histories.
-static const long ENUM_TOTAL = 4L * 16 * 2 * 81;
+// per global; every lookup on every global after each round.   6 * 16 * 2 * 81 = 15552 histories.
+static const long ENUM_TOTAL = 6L * 16 * 2 * 81;
 static std::string enumHistory(long idx) {
-  static const int NS[] = {1, 2, 3, 100};
-  int N = NS[idx % 4]; idx /= 4;
+  static const char* NS[] = {"1", "2", "3", "100", "0", "5"};
+  std::string N = NS[idx % 6]; idx /= 6;
   int subset = idx % 16; idx /= 16;
   int order = idx % 2; idx /= 2;
   int choice[4];
